@@ -49,10 +49,14 @@ out = ['''(* C08: RISC-V code generation preserves AxCut semantics.
    STATUS.  Proved for all inputs: every method of the `Instructions` trait (instruction selection),
    the jump-table stride and dispatch, the allocator operations share / erase / release / acquire
    as refinements of the abstract heap operations, and `store` / `load` of ONE block (1..3 values,
-   both load modes).  NOT proved: store/load of more than FIELDS_PER_BLOCK values (chains of
-   blocks), the generic layer (Model/Backend.code_statement simulates the linear machine, incl.
-   parallel moves from C11) and hence the composition `rv_codegen_correct`, which is therefore
-   only STATED below (a `Definition ... : Prop`).  The composition and `three_backends_agree` are
+   both load modes); in the second half of this file (hand-written, after the marker FORWARD
+   SIMULATION) the forward simulation of Model/Backend.code_statement against the linear machine
+   for the integer fragment and closures without captured variables, up to the program level
+   (C08_codegen_simulates_int / _cf).  NOT proved: store/load of more than FIELDS_PER_BLOCK values
+   (chains of blocks) and the simulation of the heap statements (Let / Switch, closures with captured
+   variables), hence the composition `rv_codegen_correct` for all programs, which is therefore
+   only STATED below (a `Definition ... : Prop`) and proved for the fragment
+   (C08_rv_codegen_correct_partial).  The composition and `three_backends_agree` are
    checked by execution on every run (modelrun sem-rv): the Rust-emitted code is run on
    Sem/RVSem.v against Sem/AxSem.run_linear and against the x86-64 and AArch64 code of the same
    program on Sem/X86Sem.v and Sem/A64Sem.v. *)
@@ -109,5 +113,9 @@ Definition three_backends_agree (lin_wt : prog -> Prop) : Prop :=
        fst (run_rv outer inner cs args) = fst (A64Sem.run_a64 outer inner ys args))
       \\/ heap_exhausted (fst (run_rv outer inner cs args)).
 ''')
-(root / "coq/Props/C08.v").write_text("\n".join(out))
+# the hand-written forward-simulation part (statements of Proof/RVSim*.v) is kept as it is
+MARK = "(* ===== FORWARD SIMULATION"
+old_text = (root / "coq/Props/C08.v").read_text() if (root / "coq/Props/C08.v").exists() else ""
+tail = ("\n" + old_text[old_text.index(MARK):]) if MARK in old_text else ""
+(root / "coq/Props/C08.v").write_text("\n".join(out) + tail)
 print("wrote coq/Props/C08.v with", len(items), "theorems")
